@@ -77,10 +77,15 @@ class CrystalMapProperties(dict):
             array_shape = (self.is_in_data.size,)
 
         # Get array values if `key` already present, or zeros
-        array = self.setdefault(key, np.zeros(array_shape))
+        array = self.setdefault(key, np.zeros(array_shape, dtype=value.dtype))
 
-        # Set correct data type
-        array = array.astype(value.dtype)
+        # Set correct data type, which must also hold the values of
+        # points not in the data since these are kept
+        if np.all(self.is_in_data):
+            dtype = value.dtype
+        else:
+            dtype = np.result_type(array.dtype, value.dtype)
+        array = array.astype(dtype)
 
         array[self.is_in_data, ...] = value
         super().__setitem__(key, array)
